@@ -46,7 +46,17 @@ fn id_of_addr(addr: &str) -> Value {
     }
 }
 
-async fn run_view(case: Value) -> Value {
+struct ViewUnderTest {
+    local: u64,
+    naming: Option<Addr<NamingActor>>,
+    addr: Addr<InnerNodeManage>,
+    direct: ProcessRange,
+    stored: ProcessRange,
+    keys: Vec<Value>,
+}
+
+/// builds the real actors of one simulated node
+fn setup_view(case: &Value, by_timer: bool) -> ViewUnderTest {
     let local = case["local"].as_u64().unwrap();
     let nodes: Vec<(u64, Arc<String>, bool)> = case["nodes"]
         .as_array()
@@ -63,24 +73,38 @@ async fn run_view(case: Value) -> Value {
     } else {
         None
     };
-    let inner = InnerNodeManage::verif_new_with_nodes(local, nodes, naming.clone());
+    let inner = InnerNodeManage::verif_new_with_nodes(local, nodes, naming.clone(), by_timer);
     let direct = inner.verif_get_current_process_range();
     let stored = inner.verif_current_range();
     let addr = inner.start();
-    let owner_ranges = match addr
+    ViewUnderTest {
+        local,
+        naming,
+        addr,
+        direct,
+        stored,
+        keys: case["keys"].as_array().cloned().unwrap_or_default(),
+    }
+}
+
+/// observes the node through the genuine messages / public functions
+async fn observe_view(v: &ViewUnderTest) -> Value {
+    let local = v.local;
+    let owner_ranges = match v
+        .addr
         .send(NodeManageRequest::QueryOwnerRange(ProcessRange::new(0, 0)))
         .await
     {
         Ok(Ok(NodeManageResponse::OwnerRange(v))) => v,
         _ => vec![],
     };
-    let all_nodes = match addr.send(NodeManageRequest::GetAllNodes).await {
+    let all_nodes = match v.addr.send(NodeManageRequest::GetAllNodes).await {
         Ok(Ok(NodeManageResponse::AllNodes(v))) => v,
         _ => vec![],
     };
-    let nm = NodeManage::new(addr.clone());
+    let nm = NodeManage::new(v.addr.clone());
     let mut keys = vec![];
-    for k in case["keys"].as_array().unwrap() {
+    for k in &v.keys {
         let key = service_key(k);
         let h = get_hash_value(&key);
         // what NamingActor::update_instance evaluates (it hashes `&&ServiceKey`)
@@ -95,7 +119,7 @@ async fn run_view(case: Value) -> Value {
             .unwrap_or(false);
         keys.push(json!({"h": h, "h2": h2, "route": route, "owner": owner}));
     }
-    let naming_range = match naming {
+    let naming_range = match &v.naming {
         Some(n) => match n.send(VerifQueryNamingRange).await {
             Ok(Some(r)) => range_json(&r),
             _ => Value::Null,
@@ -104,13 +128,39 @@ async fn run_view(case: Value) -> Value {
     };
     json!({
         "r": "ok",
-        "range": range_json(&direct),
-        "stored": range_json(&stored),
+        "range": range_json(&v.direct),
+        "stored": range_json(&v.stored),
         "owner_ranges": owner_ranges.iter().map(range_json).collect::<Vec<_>>(),
         "nodes": all_nodes.iter().map(|n| json!([n.id, n.index, n.is_local, n.status == NodeStatus::Valid])).collect::<Vec<_>>(),
         "keys": keys,
         "naming_range": naming_range,
     })
+}
+
+async fn run_view(case: Value) -> Value {
+    let v = setup_view(&case, false);
+    observe_view(&v).await
+}
+
+/// all views wait together for the genuine liveness timer (15 s silence, 3 s heartbeat)
+async fn run_views_timer(case: Value) -> Value {
+    let views: Vec<ViewUnderTest> = case["views"]
+        .as_array()
+        .unwrap()
+        .iter()
+        .map(|c| setup_view(c, true))
+        .collect();
+    let mut before = vec![];
+    for v in &views {
+        before.push(observe_view(v).await);
+    }
+    let wait = case["wait_ms"].as_u64().unwrap_or(19_000);
+    tokio::time::sleep(std::time::Duration::from_millis(wait)).await;
+    let mut after = vec![];
+    for v in &views {
+        after.push(observe_view(v).await);
+    }
+    json!({"r":"ok","before":before,"after":after})
 }
 
 impl Suite for Distro {
@@ -151,6 +201,16 @@ impl Suite for Distro {
                 match catch_unwind(AssertUnwindSafe(|| {
                     let sys = actix::System::new();
                     sys.block_on(run_view(c))
+                })) {
+                    Ok(v) => v,
+                    Err(_) => json!({"r":"panic"}),
+                }
+            }
+            "views_timer" => {
+                let c = case.clone();
+                match catch_unwind(AssertUnwindSafe(|| {
+                    let sys = actix::System::new();
+                    sys.block_on(run_views_timer(c))
                 })) {
                     Ok(v) => v,
                     Err(_) => json!({"r":"panic"}),
